@@ -141,4 +141,40 @@ theorem year_frac_act_act_isda_multi_year (dt1 dt2 : PyDate) (dt3 : Option PyDat
   by_cases a : gLeap dt1.y = true <;> by_cases b : gLeap dt2.y = true <;>
     simp [hne, fracOf, yearLen, a, b]
 
+/-- closed form of the generated ACT/ACT ISDA branch for dates in different years (either order) -/
+theorem year_frac_act_act_isda_diff_year_shape (dt1 dt2 : PyDate) (dt3 : Option PyDate) (f : Int) (term : Bool)
+    (hne : dt1.y ≠ dt2.y) (h1 : 1901 ≤ dt1.y) (h2 : 1901 ≤ dt2.y) :
+    fracOf (year_frac dt1 dt2 dt3 f term 5) =
+      ((J (dt1.y + 1) - dt1.serial : Int) : Rat) / (yearLen dt1.y : Int)
+        + ((dt2.serial - J dt2.y : Int) : Rat) / (yearLen dt2.y : Int) + ((dt2.y - dt1.y - 1 : Int) : Rat) := by
+  have e1 : (Model.mkDate 1 1 (dt1.y + 1)).serial = J (dt1.y + 1) := by
+    simp only [Model.mkDate, J]
+    exact FinVerif.Props.C13.excelSerial_eq_spec 1 1 (dt1.y + 1) ⟨by omega, by omega⟩ (by omega)
+  have e2 : (Model.mkDate 1 1 dt2.y).serial = J dt2.y := by
+    simp only [Model.mkDate, J]
+    exact FinVerif.Props.C13.excelSerial_eq_spec 1 1 dt2.y ⟨by omega, by omega⟩ (by omega)
+  simp only [year_frac, pyIn, is_leap_year_eq_gLeap, datediff, e1, e2]
+  by_cases a : gLeap dt1.y = true <;> by_cases b : gLeap dt2.y = true <;>
+    simp [hne, fracOf, yearLen, a, b]
+
+/-- C15 sign / antisymmetry of ACT/ACT ISDA across calendar years: swapping the two dates negates the
+fraction exactly (so the fraction has the sign of end − start), for dates in different years ≥ 1901. -/
+theorem act_act_isda_antisymmetric (a b : PyDate) (dt3 : Option PyDate) (f : Int) (term : Bool)
+    (hne : a.y ≠ b.y) (ha : 1901 ≤ a.y) (hb : 1901 ≤ b.y) :
+    fracOf (year_frac b a dt3 f term 5) = - fracOf (year_frac a b dt3 f term 5) := by
+  rw [year_frac_act_act_isda_diff_year_shape a b dt3 f term hne ha hb,
+      year_frac_act_act_isda_diff_year_shape b a dt3 f term (Ne.symm hne) hb ha]
+  have sa := J_step a.y
+  have sb := J_step b.y
+  have la : ((yearLen a.y : Int) : Rat) ≠ 0 := by
+    have := yearLen_pos a.y; have : yearLen a.y ≠ 0 := by omega
+    exact_mod_cast this
+  have lb : ((yearLen b.y : Int) : Rat) ≠ 0 := by
+    have := yearLen_pos b.y; have : yearLen b.y ≠ 0 := by omega
+    exact_mod_cast this
+  rw [sa, sb]
+  push_cast
+  field_simp
+  ring
+
 end FinVerif.Props.C15
